@@ -55,7 +55,7 @@ type failStore struct {
 	fails []map[string]any
 }
 
-var classFields = []string{"op", "signed", "n_class", "consumer", "a_neg", "b_neg", "a_top", "b_top", "aform", "bform",
+var classFields = []string{"first_narrower", "second_signed", "second_is_folded_sum", "rewidening_changes_value", "output", "op", "signed", "n_class", "consumer", "a_neg", "b_neg", "a_top", "b_top", "aform", "bform",
 	"overflow", "b_zero", "count_ge_width", "stage", "a_wide", "b_wide", "res_top"}
 
 func (fs *failStore) add(o *hxlib.Out, sig string, d map[string]any) {
@@ -137,6 +137,8 @@ func (c foldCase) classify() map[string]any {
 		"a": c.a.String(), "b": c.b.String(),
 		"aform": effForm(t, c.a, c.aform), "bform": c.bEffForm(),
 		"a_neg": bs(c.a.Sign() < 0), "b_neg": bs(c.b.Sign() < 0 && !c.op.unary && !c.op.shift),
+		"replay_cmd": fmt.Sprintf("c12 one -extra \"%s %s %d %s %s %s %s\"", c.op.sym, t.su(), t.n, c.a, c.b,
+			effForm(t, c.a, c.aform), c.bEffForm()),
 	}
 	if t.isBool() {
 		d["signed"] = "bool"
@@ -699,6 +701,8 @@ func main() {
 		modeMpa(cf, o)
 	case "one":
 		modeOne(cf, o)
+	case "alias":
+		modeAlias(cf, o)
 	default:
 		fmt.Fprintln(os.Stderr, "unknown mode", mode)
 		os.Exit(2)
